@@ -74,7 +74,7 @@ def run(ctx: Ctx) -> None:
     ctx.prove([])
     rnd = ctx.rnd
     root = scratch_cwd()
-    nh = ctx.n(8, 250) * (3 if ctx.broken else 1)
+    nh = ctx.n(8, 120) * (3 if ctx.broken else 1)
     tcases, traw = [], []
     for hidx in range(nh):
         n, shape, imps = gen_graph(rnd)
